@@ -253,14 +253,22 @@ def replay(g):
                 else:
                     yaml.safe_dump(dd, open(path, "w"))
                 before = hashlib.sha1(open(path, "rb").read()).hexdigest()
-                vc = VersionConverter(io.StringIO(xml) if entry == "stringio" else path)
+                source = io.StringIO(xml) if entry == "stringio" else path
+                vc = VersionConverter(source)
                 if entry == "write_to_file":
                     outp = os.path.join(d, "out.xml")
                     vc.write_to_file(outp, fmt)
                     text = open(outp).read()
                 else:
                     text = vc.convert(fmt)
-                rec["srcsame"] = hashlib.sha1(open(path, "rb").read()).hexdigest() == before
+                    # "the source is never modified": a second conversion of the same source object gives the same result
+                    again = VersionConverter(source).convert(fmt)
+                    if re.sub(r"[0-9a-f]{8}-[0-9a-f]{4}-[0-9a-f]{4}-[0-9a-f]{4}-[0-9a-f]{12}", "ID", again) != \
+                            re.sub(r"[0-9a-f]{8}-[0-9a-f]{4}-[0-9a-f]{4}-[0-9a-f]{4}-[0-9a-f]{12}", "ID", text):
+                        rec["srcsame"] = False
+                        rec["again_differs"] = True
+                rec["srcsame"] = rec["srcsame"] and hashlib.sha1(open(path, "rb").read()).hexdigest() == before and \
+                    (entry != "stringio" or source.getvalue() == xml)
                 rec["logged"] = log_facts(g, vc.conversion_log)
                 try:
                     rd = XMLReader(ignore_errors=False, show_warnings=False)
